@@ -66,6 +66,57 @@ def rand_history(rng, cfg, s, n, buf_extra, p_full=0.2, p_toggle=0.0, p_swap=0.0
             'eager': p_eager > 0 and rng.random() < p_eager}
 
 
+def directed_switch_history(rng, cfg, s, tries=400, maxlen=4, hardest=False):
+    """A history aimed at the size re-computation after a packet switch (S9 / 78bbf0f): a few records bring the
+    position to p, then a record whose size depends on the position (alignment padding) is traced with
+    size_at(p) < size_at(q), q the position right after the opening of a packet, in a buffer chosen so that the record
+    does not fit the rest of the packet, its size AT P fits an empty packet, its size AT Q does not.  A tracer that
+    keeps the size computed before the switch writes beyond the packet; the right outcome is one discarded record.
+    hardest: among the candidates found, the one whose p - q is divisible by the largest power of two (the position
+    change a short-cut comparison of the two positions is most likely to overlook).
+    Returns None when the configuration has no such record (sizes independent of the position) or none was found."""
+    erts = sorted_erts(s)
+    pc_user = [m for m in s['pc_extra']]
+    pcargs = lg.rand_struct_vals(rng, {'minal': 8, 'members': pc_user}, maxlen) if pc_user else []
+    q = lg.header_bits(cfg, s, pcargs)
+
+    def rec():
+        ei = rng.randrange(len(erts))
+        return ei, [lg.rand_struct_vals(rng, st, maxlen) for st in scopes(cfg, s, erts[ei])]
+    best = None
+    for _ in range(tries):
+        p, pre = q, []
+        for _k in range(rng.randint(1, 6)):
+            ei, vals = rec()
+            p = lg.record_end(cfg, s, erts[ei], vals, p)
+            pre.append(('trace', ei, vals))
+        ei, vals = rec()
+        fp = lg.record_end(cfg, s, erts[ei], vals, p) - p
+        fq = lg.record_end(cfg, s, erts[ei], vals, q) - q
+        if fp >= fq:
+            continue
+        lo, hi = max(p, q + fp), min(p + fp, q + fq)      # 8 * bytes must lie in [lo, hi)
+        b = (lo + 7) // 8
+        if 8 * b >= hi:
+            continue
+        v2 = ((p - q) & -(p - q)).bit_length()
+        if best is None or v2 > best[0]:
+            best = (v2, p, pre, ei, vals, fp, fq, b)
+        if not hardest:
+            break
+    if best is None:
+        return None
+    v2, p, pre, ei, vals, fp, fq, b = best
+    calls = [('open',)] + pre + [('trace', ei, vals)]
+    if rng.random() < 0.5:
+        e2, v2_ = rec()
+        calls.append(('trace', e2, v2_))
+    calls.append(('fini',))
+    oracle = [(False, None, None, 1)] * (6 * len(calls) + 8)
+    return {'calls': calls, 'oracle': oracle, 'pcargs': pcargs, 'buf': b, 'same_addr': False, 'eager': False,
+            'directed': 'switch-resize p=%d q=%d size_at_p=%d size_at_q=%d buffer=%d bits' % (p, q, fp, fq, 8 * b)}
+
+
 # ------------------------------------------------------------------ C glue
 GLUE_HEAD = r'''
 #include <stdint.h>
@@ -795,3 +846,118 @@ int main(void)
         res.append({'packet_size': t[0], 'off_content': t[1], 'at': t[2], 'er_size': t[3], 'backend_full_answers': list(t[4]),
                     'impl': impl, 'expected': reserve_reference(*t)})
     return res, None
+
+
+# ------------------------------------------------------------------ probe of the size re-computation after a packet switch
+def probe_switch(cfg, s, workdir, rng, prefix='barectf_', max_cases=300):
+    """Calls the REAL tracing functions (by including barectf.c, NDEBUG) in states built like this: real init, real
+    opening of a packet (position q), then ctx->at moved to a later position p of the open packet, with a packet size
+    B such that the record does not fit the rest of the packet, its size AT P fits an empty packet and its size AT Q
+    does not (the size depends on the position through alignment padding).  p ranges over every bit offset up to 64 and
+    every byte offset up to 2048 bits from q, so that every residue of p - q modulo the alignments is met.  Expected
+    (layout arithmetic, as the Coq model's trace_recheck): packet switch, record discarded and counted, position q,
+    nothing written after the buffer.  Returns (list of case dicts, error)."""
+    erts = sorted_erts(s)
+    ca = lg.CArgs()
+    pc_user = {'minal': 8, 'members': list(s['pc_extra'])}
+    pcvals = lg.rand_struct_vals(rng, pc_user, 3) if pc_user['members'] else []
+    pc_args = ''.join(', ' + ca.lit(f, v) for (n, f), v in zip(pc_user['members'], pcvals))
+    q = lg.header_bits(cfg, s, pcvals)
+    cases, calls = [], []
+    for ei, e in enumerate(erts):
+        for _k in range(2):
+            vals = [lg.rand_struct_vals(rng, st, 4) for st in scopes(cfg, s, e)]
+            fq = lg.record_end(cfg, s, e, vals, q) - q
+            mine = []
+            for d in list(range(1, 65)) + list(range(72, 2049, 8)):
+                pp = q + d
+                fp = lg.record_end(cfg, s, e, vals, pp) - pp
+                if fp >= fq:
+                    continue
+                lo, hi = max(pp, q + fp), min(pp + fp, q + fq)
+                B = (lo + 7) // 8 * 8
+                if B >= hi:
+                    continue
+                mine.append({'ert': ei, 'vals': vals, 'p': pp, 'q': q, 'size_at_p': fp, 'size_at_q': fq, 'packet_bits': B})
+            if mine:
+                args = []
+                for st, v in zip(scopes(cfg, s, e), vals):
+                    args += lg.c_call_args(ca, st, v)
+                for m in mine:
+                    m['fn'] = len(calls)
+                calls.append('static void call_%d(void) { %s%s_trace_%s(&sctx%s); }' % (
+                    len(calls), prefix, s['name'], e['name'], ''.join(', ' + a for a in args)))
+                cases += mine
+    if not cases:
+        return [], None
+    if len(cases) > max_cases:
+        cases = [cases[i] for i in sorted(rng.sample(range(len(cases)), max_cases))]
+    d = {'p': prefix, 'st': s['name'], 'pcargs': pc_args, 'decls': '\n'.join(ca.decls), 'calls': '\n'.join(calls),
+         'table': ', '.join('call_%d' % i for i in range(len(calls))),
+         'rows': ',\n'.join('\t{%d, %uU, %uU}' % (c['fn'], c['p'], c['packet_bits']) for c in cases)}
+    if s['clock']:
+        d['clock'] = 'static %s p_clock(void *d) { (void) d; return (%s) ++clk; }' % (s['clock']['ctype'], s['clock']['ctype'])
+        d['set_clock'] = 'cbs.%s_clock_get_value = p_clock;' % s['clock']['name']
+    else:
+        d['clock'] = d['set_clock'] = ''
+    src = r"""
+#define NDEBUG
+#include "barectf.c"
+#include <stdio.h>
+#include <stdlib.h>
+#include <string.h>
+#define CANARY 8192
+static struct %(p)s%(st)s_ctx sctx;
+static unsigned long long clk;
+%(decls)s
+static int p_full(void *d) { (void) d; return 0; }
+static void p_open(void *d) { (void) d; %(p)s%(st)s_open_packet(&sctx%(pcargs)s); }
+static void p_close(void *d) { (void) d; %(p)s%(st)s_close_packet(&sctx); }
+%(clock)s
+%(calls)s
+static void (*const CALLS[])(void) = { %(table)s };
+static const struct { int fn; uint32_t p, bits; } T[] = {
+%(rows)s
+};
+int main(void)
+{
+	unsigned long i, j;
+	for (i = 0; i < sizeof(T) / sizeof(T[0]); i++) {
+		struct %(p)splatform_callbacks cbs;
+		uint32_t n = T[i].bits / 8, q;
+		uint8_t *buf = (uint8_t *) malloc(n + CANARY);
+		int ok = 1;
+		memset(&cbs, 0, sizeof(cbs));
+		cbs.is_backend_full = p_full; cbs.open_packet = p_open; cbs.close_packet = p_close;
+		%(set_clock)s
+		memset(buf, 0, n); memset(buf + n, 0xCC, CANARY);
+		memset(&sctx, 0, sizeof(sctx));
+		%(p)sinit(&sctx, buf, n, cbs, NULL);
+		p_open(NULL);
+		q = sctx.parent.at;
+		sctx.parent.at = T[i].p;
+		CALLS[T[i].fn]();
+		for (j = 0; j < CANARY; j++) if (buf[n + j] != 0xCC) ok = 0;
+		printf("%%u %%u %%u %%u %%d %%d %%d\n", (unsigned) q, (unsigned) sctx.parent.at, (unsigned) sctx.parent.packet_size,
+			(unsigned) sctx.parent.events_discarded, sctx.parent.packet_is_open, sctx.parent.in_tracing_section, ok);
+		free(buf);
+	}
+	return 0;
+}
+""" % d
+    with open(os.path.join(workdir, 'sprobe.c'), 'w') as f:
+        f.write(src)
+    rc, out = bt.cc(['-w', '-O0', 'sprobe.c', '-o', 'sprobe'], cwd=workdir)
+    if rc != 0:
+        return None, 'packet switch probe does not compile: ' + out[-600:]
+    pr = subprocess.run([os.path.join(workdir, 'sprobe')], capture_output=True, text=True, timeout=120)
+    lines = pr.stdout.splitlines()
+    if len(lines) != len(cases):
+        return None, 'packet switch probe failed: rc %s, %d/%d lines' % (pr.returncode, len(lines), len(cases))
+    for c, l in zip(cases, lines):
+        qi, at, psz, disc, isopen, insec, ok = [int(x) for x in l.split()]
+        c['impl'] = {'q': qi, 'at': at, 'packet_size': psz, 'discarded': disc, 'packet_is_open': isopen,
+                     'in_tracing_section': insec, 'bytes_after_buffer_untouched': bool(ok)}
+        c['expected'] = {'q': c['q'], 'at': c['q'], 'packet_size': c['packet_bits'], 'discarded': 1, 'packet_is_open': 1,
+                         'in_tracing_section': 0, 'bytes_after_buffer_untouched': True}
+    return cases, None
